@@ -2,6 +2,20 @@ import PsVerif.Model.CMapOps
 import PsVerif.Model.Init
 /-!
 # C07 — the CIDInit procedure set (CMap reader)
+
+Statements about the 17 operators of `Model/CMapOps.lean` (`cmap.go`).  The operand stack is top-first, so
+`n` entries `e₁ … eₙ` pushed in file order sit on the stack as `(objs [e₁, …, eₙ]).reverse ++ rest`, where
+`pairObjs / charObjs / rangeObjs` list the operands bottom to top.  Since `CodeSpaceRange`, `CharMap` and
+`RangeMap` are plain pairs/triples of objects, *every* stack with at least `2n` / `3n` operands has this shape
+(`stack_pairs`, `stack_chars`, `stack_ranges`), so the theorems below cover all inputs of the `end…` operators.
+
+1. `block_effect_*` (seven kinds; generic: `block_effect_chars`, `block_effect_ranges`), whole blocks
+   `block_codespacerange / block_chars / block_ranges`.
+2. `begin_block_rangecheck / _typecheck / _underflow / _ok`, `no_cmap_undefined` (14 block operators + `usecmap`).
+3. `cmap_rejects_codespacerange / _chars / _ranges` (first ill-formed entry decides the error),
+   `cmap_rejects_*_any` (any ill-formed entry ⇒ rejected), `end*_ok_iff` (accepted iff all entries well formed),
+   `end*_underflow`, `fail_unchanged` (every failing operator returns the VM unchanged).
+4. `endcmap_sorted` (with `bEndcmap_eq`, `bEndcmap_fail`, `sortTables_perm`, `sortTables_sorted`, `le_congr`).
 -/
 namespace PsVerif.Props.C07
 open PsVerif.Model
@@ -986,6 +1000,18 @@ theorem dictLookup_insert_other (l : List (Name × Obj)) (k k' : Name) (x : Obj)
     simp only [List.find?_append]
     cases l.find? (fun p => p.1 == k') <;> simp [hk2]
 
+theorem heap_two_updates (h : Array Cell) (r d : Nat) (A B : Cell) (hr : r < h.size) (hd : d < h.size)
+    (hne : r ≠ d) :
+    ((h.setIfInBounds r A).setIfInBounds d B)[r]? = some A ∧
+    ((h.setIfInBounds r A).setIfInBounds d B)[d]? = some B ∧
+    (∀ i, i ≠ r → i ≠ d → ((h.setIfInBounds r A).setIfInBounds d B)[i]? = h[i]?) ∧
+    ((h.setIfInBounds r A).setIfInBounds d B).size = h.size := by
+  refine ⟨?_, ?_, ?_, by simp⟩
+  · rw [Array.getElem?_setIfInBounds_ne (fun e => hne e.symm), Array.getElem?_setIfInBounds_self_of_lt hr]
+  · rw [Array.getElem?_setIfInBounds_self_of_lt (by simpa using hd)]
+  · intro i h1 h2
+    rw [Array.getElem?_setIfInBounds_ne (fun e => h2 e.symm), Array.getElem?_setIfInBounds_ne (fun e => h1 e.symm)]
+
 /-- **`endcmap`**: with a current dictionary `d` and a CMap under construction in cell `r`, the operator
 succeeds; afterwards the cell `r` holds the `CMapInfo` whose tables are permutations of the tables before,
 each sorted by its key (code space ranges by length then code, the others bytewise by source code / low
@@ -1018,14 +1044,150 @@ theorem endcmap_sorted (v : VM) (d : Nat) (ds : List Nat) (r : Nat) (c : CMapInf
     intro e; subst e; rw [hc] at hdd; cases hdd
   obtain ⟨p0, p1, p2, p3, p4, p5, p6, p7⟩ := sortTables_perm v c
   obtain ⟨s1, s2, s3, s4, s5, s6, s7⟩ := sortTables_sorted v c
-  refine ⟨{ ((setCMap v r (sortTables v c)).dictPut d "CodeMap" (.cmapInfo r)) with cmapMappings := none },
-    sortTables v c, ?_, ?_⟩
-  · rw [bEndcmap_eq v d ds r hd hm, getCMap_of hc]
+  have hd1 : (setCMap v r (sortTables v c)).getDict d = dd := by
+    simp [VM.getDict, setCMap, VM.setCell, Array.getElem?_setIfInBounds_ne hne, hdd]
+  have hfin : ({ ((setCMap v r (sortTables v c)).dictPut d "CodeMap" (.cmapInfo r)) with cmapMappings := none } : VM) =
+      { v with heap := (v.heap.setIfInBounds r (.cmap (sortTables v c))).setIfInBounds d
+                          (.dict (dictInsert dd "CodeMap" (.cmapInfo r))),
+               cmapMappings := none } := by
+    simp only [VM.dictPut, hd1]; rfl
+  obtain ⟨g1, g2, g3, g4⟩ := heap_two_updates v.heap r d (.cmap (sortTables v c))
+    (.dict (dictInsert dd "CodeMap" (.cmapInfo r))) hr hdl hne
+  refine ⟨{ v with heap := (v.heap.setIfInBounds r (.cmap (sortTables v c))).setIfInBounds d
+                              (.dict (dictInsert dd "CodeMap" (.cmapInfo r))),
+                   cmapMappings := none }, sortTables v c, ?_, ?_⟩
+  · rw [bEndcmap_eq v d ds r hd hm, getCMap_of hc, hfin]
   refine ⟨rfl, ?_, ?_, ?_, p0, p1, s1, p2, s2, p3, s3, p4, s4, p5, s5, p6, s6, p7, s7, rfl, rfl, rfl, rfl, rfl,
-    ?_, ?_, ?_⟩
-  · simp [VM.getCMap, VM.dictPut, VM.setCell, setCMap, hne, hr, Array.getElem?_setIfInBounds]
-    trace_state
-    sorry
-  all_goals sorry
+    g4, g3, ?_⟩
+  · simp only [VM.getCMap, g1]
+  · simp only [VM.dictGet, VM.getDict, g2]
+    exact dictLookup_insert_self _ _ _
+  · intro k hk
+    simp only [VM.dictGet, VM.getDict, g2, hdd]
+    exact dictLookup_insert_other _ _ _ _ hk
+  · intro o
+    cases o <;> try rfl
+    rename_i r' off len
+    simp only [strBytes, VM.viewBytes, VM.getBytes]
+    by_cases e1 : r' = r
+    · subst e1; rw [g1, hc]
+    · by_cases e2 : r' = d
+      · subst e2; rw [g2, hdd]
+      · rw [g3 r' e1 e2]
+
+/-- the orders only depend on the bytes of the strings, which `endcmap` does not touch: the tables are
+sorted with respect to the state after `endcmap` as well -/
+theorem le_congr (v v' : VM) (h : ∀ o, strBytes v' o = strBytes v o) :
+    leCS v' = leCS v ∧ leSrc v' = leSrc v ∧ leLow v' = leLow v := by
+  refine ⟨?_, ?_, ?_⟩ <;> funext a b <;> simp [leCS, leSrc, leLow, h]
+
+/-! ## whole blocks: `n begin… e₁ … eₙ end…` -/
+
+/-- `n begincodespacerange`, then the operands of `n` well-formed entries are pushed (which may allocate
+string cells: the heap `h2` is arbitrary as long as cell `r` still holds the `CMapInfo`), then
+`endcodespacerange`: the entries are appended in order and the stack is back to `rest`. -/
+theorem block_codespacerange (v : VM) (r : Nat) (c : CMapInfo) (es : List CodeSpaceRange) (rest : List Obj)
+    (h2 : Array Cell)
+    (hm : v.cmapMappings = some r) (hs : v.stack = .int es.length :: rest) (hlen : es.length ≤ 100)
+    (hc : h2[r]? = some (.cmap c)) :
+    ∃ v1, bBegincodespacerange v = (v1, .ok) ∧
+      ∀ v2, v2 = { v1 with stack := (pairObjs es).reverse ++ v1.stack, heap := h2 } →
+        (∀ e ∈ es, okPair v2 e) →
+        bEndcodespacerange v2 =
+          ({ v2 with heap := h2.setIfInBounds r (.cmap { c with codeSpaceRanges := c.codeSpaceRanges ++ es }),
+                     stack := rest, cmapCodeSpaceRanges := 0 }, .ok) := by
+  refine ⟨_, beginBlock_ok v _ r es.length rest hm hs (by omega) (by omega), ?_⟩
+  intro v2 hv2 hok
+  have := block_effect_codespacerange v2 r c es rest (by rw [hv2]; exact hm) (by rw [hv2]; exact hc)
+    (by rw [hv2]; simp) (by rw [hv2]) hok
+  rw [this, hv2]
+
+theorem block_chars (valOk : Obj → Bool) (add : CMapInfo → List CharMap → CMapInfo)
+    (v : VM) (r : Nat) (c : CMapInfo) (es : List CharMap) (rest : List Obj) (h2 : Array Cell)
+    (hm : v.cmapMappings = some r) (hs : v.stack = .int es.length :: rest) (hlen : es.length ≤ 100)
+    (hc : h2[r]? = some (.cmap c)) (hok : ∀ e ∈ es, okChar valOk e) :
+    ∃ v1, bBeginChars v = (v1, .ok) ∧
+      ∀ v2, v2 = { v1 with stack := (charObjs es).reverse ++ v1.stack, heap := h2 } →
+        endChars valOk add v2 =
+          ({ v2 with heap := h2.setIfInBounds r (.cmap (add c es)), stack := rest, cmapChars := 0 }, .ok) := by
+  refine ⟨_, beginBlock_ok v _ r es.length rest hm hs (by omega) (by omega), ?_⟩
+  intro v2 hv2
+  have := block_effect_chars valOk add v2 r c es rest (by rw [hv2]; exact hm) (by rw [hv2]; exact hc)
+    (by rw [hv2]; simp) (by rw [hv2]) hok
+  rw [this, hv2]
+
+theorem block_ranges (valOk : Obj → Bool) (add : CMapInfo → List RangeMap → CMapInfo)
+    (v : VM) (r : Nat) (c : CMapInfo) (es : List RangeMap) (rest : List Obj) (h2 : Array Cell)
+    (hm : v.cmapMappings = some r) (hs : v.stack = .int es.length :: rest) (hlen : es.length ≤ 100)
+    (hc : h2[r]? = some (.cmap c)) :
+    ∃ v1, bBeginRanges v = (v1, .ok) ∧
+      ∀ v2, v2 = { v1 with stack := (rangeObjs es).reverse ++ v1.stack, heap := h2 } →
+        (∀ e ∈ es, okRange v2 valOk e) →
+        endRanges valOk add v2 =
+          ({ v2 with heap := h2.setIfInBounds r (.cmap (add c es)), stack := rest, cmapRanges := 0 }, .ok) := by
+  refine ⟨_, beginBlock_ok v _ r es.length rest hm hs (by omega) (by omega), ?_⟩
+  intro v2 hv2 hok
+  have := block_effect_ranges valOk add v2 r c es rest (by rw [hv2]; exact hm) (by rw [hv2]; exact hc)
+    (by rw [hv2]; simp) (by rw [hv2]) hok
+  rw [this, hv2]
+
+/-- `begincmap` starts a fresh, empty `CMapInfo` -/
+theorem begincmap_fresh (v : VM) :
+    ∃ v', bBegincmap v = (v', .ok) ∧ v'.cmapMappings = some v.heap.size ∧
+      v'.heap[v.heap.size]? = some (.cmap {}) ∧ v'.stack = v.stack := by
+  refine ⟨_, rfl, rfl, ?_, rfl⟩
+  simp
+
+/-- `usecmap` records the name and pops it; other operands are a `typecheck`, none a `stackunderflow` -/
+theorem usecmap_effect (v : VM) (r : Nat) (c : CMapInfo)
+    (hm : v.cmapMappings = some r) (hc : v.heap[r]? = some (.cmap c)) :
+    (∀ n rest, v.stack = .name n :: rest →
+      bUsecmap v = ({ v with heap := v.heap.setIfInBounds r (.cmap { c with useCMap := n }), stack := rest }, .ok)) ∧
+    (v.stack = [] → bUsecmap v = (v, .err (.ps "stackunderflow"))) ∧
+    (∀ o rest, v.stack = o :: rest → (∀ n, o ≠ .name n) → bUsecmap v = (v, .err (.ps "typecheck"))) := by
+  refine ⟨?_, ?_, ?_⟩
+  · intro n rest hs
+    simp only [bUsecmap, withCMap, hm, hs, getCMap_of hc]
+    simp [okRes, setCMap, VM.setCell, hm]
+  · intro hs
+    simp only [bUsecmap, withCMap, hm, hs]; rfl
+  · intro o rest hs ho
+    cases o <;> simp_all [bUsecmap, withCMap, psErr]
+
+#print axioms block_effect_codespacerange
+#print axioms block_effect_cidchar
+#print axioms block_effect_bfchar
+#print axioms block_effect_notdefchar
+#print axioms block_effect_cidrange
+#print axioms block_effect_bfrange
+#print axioms block_effect_notdefrange
+#print axioms block_codespacerange
+#print axioms block_chars
+#print axioms block_ranges
+#print axioms begin_block_rangecheck
+#print axioms begin_block_typecheck
+#print axioms begin_block_underflow
+#print axioms begin_block_ok
+#print axioms no_cmap_undefined
+#print axioms cidInit_dispatch
+#print axioms cmap_rejects_codespacerange
+#print axioms cmap_rejects_chars
+#print axioms cmap_rejects_ranges
+#print axioms cmap_rejects_codespacerange_any
+#print axioms cmap_rejects_chars_any
+#print axioms cmap_rejects_ranges_any
+#print axioms endcodespacerange_ok_iff
+#print axioms endChars_ok_iff
+#print axioms endRanges_ok_iff
+#print axioms endcodespacerange_underflow
+#print axioms endChars_underflow
+#print axioms endRanges_underflow
+#print axioms fail_unchanged
+#print axioms bEndcmap_eq
+#print axioms bEndcmap_fail
+#print axioms endcmap_sorted
+#print axioms le_congr
+#print axioms usecmap_effect
+#print axioms begincmap_fresh
 
 end PsVerif.Props.C07
